@@ -11,9 +11,9 @@ TRACE = "InputRootTrace.tla"
 TRACE_CFG = "Trace_InputRoot.cfg"
 
 
-def _drive(ctx, binary, label, n, steps, dirs, seed_offset=0):
+def _drive(ctx, binary, label, n, steps, dirs, seed_offset=0, test="TestRandom"):
     out = ctx.sub(label)
-    rc, o = vlib.run_driver(binary, "TestRandom", out, ctx.seed + seed_offset,
+    rc, o = vlib.run_driver(binary, test, out, ctx.seed + seed_offset,
                             env={"VERIF_N": n, "VERIF_STEPS": steps, "VERIF_DIRS": dirs})
     if rc != 0:
         raise vlib.Infra("inputroot driver failed:\n" + o[-3000:])
@@ -38,6 +38,10 @@ def run(ctx):
     # 2. conformance of the real input root
     binary = vlib.go_build_test(ctx, "inputroot")
     metas = []
+    # every kind of malformed Directory message, as a child directory, as the
+    # input root itself and inside a Tree object (deterministic; the random
+    # scenarios below reach a given kind only now and then)
+    metas.append(_drive(ctx, binary, "gallery", 0, 0, 0, test="TestGallery"))
     if ctx.quick():
         metas.append(_drive(ctx, binary, "random", 60, 60, 7))
     else:
@@ -58,7 +62,9 @@ def run(ctx):
              "invalid-name/bad-digest messages, one storage error, every exploration order interleaved with local "
              "modifications; two actions over one CAS, one rooted in a Tree). The real input root (virtualBuildDirectory."
              "MergeDirectoryContents -> CASInitialContentsFetcher -> stateless handle allocating / BlobAccess CAS file "
-             "factories, BlobAccess + caching directory fetchers, FUSE and NFS handle allocators) is driven over seeded "
+             "factories, BlobAccess + caching directory fetchers, FUSE and NFS handle allocators) is driven over a gallery "
+             "of every kind of malformed Directory message (each invalid name x each list, duplicates within and across "
+             "lists, each unparsable digest, absent, junk; as child directory, as input root, inside a Tree) and over seeded "
              "random Directory DAGs in an in-memory CAS with injected storage errors through the kernel-facing and "
              "worker-facing APIs, interleaved with local modifications and attempts to alter CAS-backed files; TLC "
              "recomputes for every logged reply what Denotation(root digest) overlaid with the modifications prescribes "
